@@ -313,7 +313,7 @@ async fn exec(cache: &MultiLayerCacheImpl<RibbitKey>, cfg: &Cfg, dirs: &[Option<
         Op::BGet(ks) => {
             let keys: Vec<RibbitKey> = ks.iter().map(|k| key(*k)).collect();
             match cache.batch_get(&keys).await {
-                Ok(rs) => format!("vals {}", if rs.is_empty() { "-".to_string() } else { rs.iter().map(|o| o.as_ref().map_or("none".to_string(), |v| hex(v))).collect::<Vec<_>>().join("|") }),
+                Ok(rs) => format!("vals {}", if rs.is_empty() { ".".to_string() } else { rs.iter().map(|o| o.as_ref().map_or("none".to_string(), |v| hex(v))).collect::<Vec<_>>().join("|") }),
                 Err(e) => err_class(&e).to_string(),
             }
         }
@@ -603,14 +603,15 @@ impl Case {
             let latest = sh.latest.get(&k).cloned().flatten();
             if latest.as_deref() != Some(g) {
                 let planted = (0..sh.nlayers).any(|i| sh.planted.get(&(i, k)).is_some_and(|p| p.iter().any(|x| x[..] == *g)));
-                let older = sh.written.get(&k).and_then(|w| w.iter().rev().find(|(v, _)| v[..] == *g)).map(|(_, l)| *l);
+                // layers this (older) value of the same key was written to since the key was last removed
+                let older: BTreeSet<usize> = sh.written.get(&k).map(|w| w.iter().filter(|(v, _)| v[..] == *g).map(|(_, l)| *l).collect()).unwrap_or_default();
                 let ll = sh.latest_layer.get(&k).copied();
                 if planted {
                     s.tally("read.planted-bytes-served-unvalidated");
-                } else if let (Some(ol), Some(ll)) = (older, ll) {
-                    // an older value of the same key, still held by layer `ol`, while the latest put went to layer `ll`
-                    let sig = if ol > ll { "ml-stale-lower-layer" } else if ol < ll { "ml-stale-shadowed-by-upper-layer" } else { "ml-replaced-value-served" };
-                    fails.push((sig.into(), format!("{what} -> {} which is an older value of the key written to layer {ol}; the latest put ({}) went to layer {ll}", hex(g), latest.as_ref().map_or("expired/none".to_string(), |v| hex(v)))));
+                } else if let (false, Some(ll)) = (older.is_empty(), ll) {
+                    // an older value of the same key, left in another layer, while the latest put went to layer `ll`
+                    let sig = if older.iter().any(|ol| *ol > ll) { "ml-stale-lower-layer" } else if older.iter().any(|ol| *ol < ll) { "ml-stale-shadowed-by-upper-layer" } else { "ml-replaced-value-served" };
+                    fails.push((sig.into(), format!("{what} -> {} which is an older value of the key, written to layer(s) {older:?}; the latest put ({}) went to layer {ll}", hex(g), latest.as_ref().map_or("expired".to_string(), |v| hex(v)))));
                 } else if sh.removed.contains(&k) {
                     if !fails.iter().any(|f| f.0 == "ml-served-after-remove") { fails.push(("ml-served-after-remove".into(), format!("{what} -> {} after remove/clear", hex(g)))); }
                 } else if !fails.iter().any(|f| f.0 == "ml-phantom-value" || f.0 == "ml-foreign-value" || f.0 == "ml-corrupt-served-later") {
@@ -725,7 +726,7 @@ impl Case {
                 }
             }
             Op::BGet(ks) => {
-                let parts: Option<Vec<Option<Vec<u8>>>> = resp.strip_prefix("vals ").map(|t| if t == "-" { vec![] } else { t.split('|').map(|x| if x == "none" { None } else { unhex(x) }).collect() });
+                let parts: Option<Vec<Option<Vec<u8>>>> = resp.strip_prefix("vals ").map(|t| if t == "." { vec![] } else { t.split('|').map(|x| if x == "none" { None } else { unhex(x) }).collect() });
                 match parts {
                     Some(p) if p.len() == ks.len() => {
                         for (k, g) in ks.iter().zip(p.iter()) { self.judge_read(s, &format!("{line} [key {k}]"), *k, g.as_deref(), None); }
